@@ -79,6 +79,11 @@ type manager struct {
 
 	stoptimer *time.Timer
 
+	// a shutdown request taken off the lifecycle outside of the run loop
+	// (while waiting for the hostname service) is kept here for the loop
+	shutdownRequested bool
+	shutdownErr       error
+
 	log log.Logger
 	lc  lifecycle.Lifecycle
 
@@ -202,6 +207,11 @@ loop:
 			m.emitReceivedEvents()
 			m.maybeScheduleStop()
 
+		}
+
+		if m.shutdownRequested {
+			m.lc.ShutdownInitiated(m.shutdownErr)
+			break loop
 		}
 	}
 
@@ -366,7 +376,11 @@ func (m *manager) checkHostnamesForManifest(requestManifest manifest.Manifest, g
 	select {
 	case err := <-m.hostnameService.CanReserveHostnames(allHostnames, m.data.Deployment.DeploymentID):
 		return err
-	case <-m.lc.ShutdownRequest():
+	case err := <-m.lc.ShutdownRequest():
+		// the request has been consumed: hand it to the run loop, which would
+		// otherwise never see it and keep the manager alive
+		m.shutdownRequested = true
+		m.shutdownErr = err
 		return ErrNotRunning
 	}
 
